@@ -19,8 +19,9 @@ these iterations as `Act`s in loop order and `applyAct` performs one against the
 `u_tag` is read once before the loop and is non-zero there, so `(u_tag | v_tag) != v_tag` is
 "`v`'s tag is not set".
 
-Quirks kept: `_propagate_from_state` writes the tag of a STATE_INCLUSION *predecessor* (a state
-node) into the SYMBOL table under the state's id; SYMBOL_IS_USED successors are enqueued
+Quirks kept: before the repair recorded as C11/state-id-tagged-as-symbol (`Params.stateUpSymOnly`)
+`_propagate_from_state` wrote the tag of a STATE_INCLUSION *predecessor* (a state node) into the
+SYMBOL table under the state's id; SYMBOL_IS_USED successors are enqueued
 unconditionally; the `_processed_nodes` patch re-enqueues a defined symbol / receiver that already
 carries the tag but was never dequeued; the `break` after the receiver write-back only leaves the
 one-element inner loop.
@@ -81,11 +82,13 @@ def actsSymbol (g : Graph) (u : Nat) : List Act :=
     else none)
 
 /-- `_propagate_from_state`: first the predecessors (SYMBOL_STATE or STATE_INCLUSION edge into `u`:
-the peer's id is tagged in the SYMBOL table whatever the peer's kind), then the STATE-kind
+the peer's id is tagged in the SYMBOL table — whatever the peer's kind before the repair
+(`prm.stateUpSymOnly = false`), only for SYMBOL peers after it), then the STATE-kind
 successors over (indirect) inclusion edges. -/
-def actsState (g : Graph) (u : Nat) : List Act :=
+def actsState (g : Graph) (prm : Params) (u : Nat) : List Act :=
   (g.inE u).filterMap (fun e =>
-    if e.etype == E_SYMSTATE || e.etype == E_INCL then some (.tagSym e.peer) else none) ++
+    if (e.etype == E_SYMSTATE || e.etype == E_INCL) &&
+        (!prm.stateUpSymOnly || g.kindOf e.peer == K_SYMBOL) then some (.tagSym e.peer) else none) ++
   (g.outE u).filterMap (fun e =>
     if g.kindOf e.peer == K_STATE && (e.etype == E_INCL || e.etype == E_IINCL)
     then some (.tagSt e.peer) else none)
@@ -103,7 +106,7 @@ def actsStmt (g : Graph) (prm : Params) (u : Nat) : List Act :=
 
 def actsOf (g : Graph) (prm : Params) (u : Nat) : List Act :=
   if g.kindOf u == K_SYMBOL then actsSymbol g u
-  else if g.kindOf u == K_STATE then actsState g u
+  else if g.kindOf u == K_STATE then actsState g prm u
   else if g.kindOf u == K_STMT then actsStmt g prm u
   else []
 
